@@ -82,11 +82,12 @@ def draw_cfg(rng, engine):
 class GenSource(object):
     mode = 'gen'
 
-    def __init__(self, seed, engine, steps_table=None, funcs=None):
+    def __init__(self, seed, engine, steps_table=None, funcs=None, calls_table=None):
         self.seed = seed
         self.rng = random.Random(seed)
         self.cfg = draw_cfg(self.rng, engine)
         self.steps_table = steps_table or {}
+        self.calls_table = calls_table or {}
         self.next_id = 1
         self.made = 0
         self.queues = {}
@@ -310,7 +311,24 @@ class GenSource(object):
                 pts.append({'step': step(), 'kind': 'check'})
             if rng.random() < cfg['p_cancel']:
                 pts.append({'step': step(), 'kind': 'cancel', 'exc': rng.choice(CANCEL_KINDS)})
+            # half of the fault points are located by the k-th ENTRY INTO A PYMEEUS FUNCTION instead of the
+            # k-th line: uniform over calls reaches the short, rarely executed parts of a long computation
+            # (line steps are dominated by the big series loops)
+            ncalls = int(self.calls_table.get(op['name'], 0))
+            cps = []
+            if ncalls >= 3:
+                keep = []
+                for p in pts:
+                    if rng.random() < 0.5:
+                        q = dict(p)
+                        del q['step']
+                        q['call'] = rng.randint(1, int(ncalls * 1.1) + 1)
+                        cps.append(q)
+                    else:
+                        keep.append(p)
+                pts = keep
             pts.sort(key=lambda p: p['step'])
+            cps.sort(key=lambda p: p['call'])
             # a cancel ends the op: drop points after it; distinct steps only
             out, seen = [], set()
             for p in pts:
@@ -321,6 +339,15 @@ class GenSource(object):
                 if p['kind'] == 'cancel':
                     break
             pts = out
+            out, seen = [], set()
+            for p in cps:
+                if p['call'] in seen:
+                    continue
+                seen.add(p['call'])
+                out.append(p)
+                if p['kind'] == 'cancel':
+                    break
+            op['cpoints'] = out
         op['points'] = pts
         self.made += 1
         return op
